@@ -233,6 +233,11 @@ class Adapter:
     def probe_of_key(self, key):
         raise NotImplementedError
 
+    def rejection_must_raise(self, c):
+        """Operations whose rejection the property states explicitly (not only 'state unchanged
+        if it raises'): the call has to raise."""
+        return False
+
     def sibling_keys(self, key):
         """Keys that a confused implementation could mistake for `key` (asked about as well)."""
         return []
@@ -368,6 +373,11 @@ def resolve(ad, aop, model, U):
             c["field"] = _present_field(model.nodes[c["n"]], aop)
     elif k == "set_attr_hg":
         c["field"], c["value"] = aop["field"], aop["value"]
+    elif k == "set_layer_meta":
+        # multiplex: metadata of one layer / of the dataset, kept inside the hypergraph metadata
+        c["field"], c["value"] = LAYERS[aop["layer"] % len(LAYERS)], aop["meta"]
+    elif k == "set_dataset_meta":
+        c["field"], c["value"] = "multiplex_metadata", aop["meta"]
     elif k == "set_hg_metadata":
         c["meta"] = aop["meta"]
     elif k in ("clear", "copy"):
@@ -453,7 +463,7 @@ def apply_model(ad, m, c):
             return False
         del m.edges[key][1][c["field"]]
         return True
-    if k == "set_attr_hg":
+    if k in ("set_attr_hg", "set_layer_meta", "set_dataset_meta"):
         m.hg_required[c["field"]] = dc(c["value"])
         m.hg_absent.discard(c["field"])
         return True
@@ -501,6 +511,18 @@ def apply_real(ad, h, c):
         ad.r_remove_attr_edge(h, c["e"], c["field"])
     elif k == "set_attr_hg":
         h.set_attr_to_hypergraph_metadata(c["field"], dc(c["value"]))
+    elif k == "set_layer_meta":
+        h.set_layer_metadata(c["field"], dc(c["value"]))
+        got = h.get_layer_metadata(c["field"])
+        if got != c["value"]:
+            raise Violation("get_layer_metadata(%r) = %r right after set_layer_metadata(%r, %r)"
+                            % (c["field"], got, c["field"], c["value"]), key="layer-metadata")
+    elif k == "set_dataset_meta":
+        h.set_dataset_metadata(dc(c["value"]))
+        got = h.get_dataset_metadata()
+        if got != c["value"]:
+            raise Violation("get_dataset_metadata() = %r right after set_dataset_metadata(%r)"
+                            % (got, c["value"]), key="dataset-metadata")
     elif k == "set_hg_metadata":
         h.set_hypergraph_metadata(dc(c["meta"]))
     elif k == "clear":
@@ -707,6 +729,9 @@ def check_history(ad, case, ctx):
         except Exception as e:  # the library rejected (or crashed on) the operation
             raised = e
         ctx.label("op:" + c["op"])
+        if aop.get("same_node_set_batch") and c["op"] == "add_edges" and len(c["es"]) >= 2:
+            ctx.label(("accepted" if accepted else "rejected") + "_batch_listing_one_node_set_repeatedly"
+                      + ("_weighted" if c.get("ws") is not None else ""))
         if accepted:
             if raised is not None:
                 tb = traceback.extract_tb(raised.__traceback__)[-1]
@@ -733,6 +758,9 @@ def check_history(ad, case, ctx):
         else:
             n_reject += 1
             ctx.label("rejected:" + c["op"])
+            if raised is None and ad.rejection_must_raise(c):
+                raise Violation("%s must be rejected with an exception but returned normally"
+                                % desc, key="not-rejected:%s" % c["op"])
             if c["op"] in ("remove_edges", "remove_nodes") and len(c.get("es") or c.get("ns") or []) > 1:
                 ctx.label("rejected-bulk-removal-with-existing-tail")
             if cur_obs is None:
@@ -836,7 +864,18 @@ def op_strategy(draw, weighted, kinds, t_strategy=None, clear=True):
         wv = st.one_of(st.integers(1, 9), st.integers(1, 9), st.sampled_from([0, 0.5, 2.5]))
         ws = (st.one_of(st.none(), st.lists(wv, min_size=4, max_size=4))
               if weighted else st.none())
-        op.update(edges=draw(st.lists(e_mixed, min_size=1, max_size=4)), ws=draw(ws),
+        specs = draw(st.lists(e_mixed, min_size=1, max_size=4))
+        if len(specs) >= 2 and draw(st.integers(0, 3)) == 0:
+            # one batch lists the SAME node set several times at different coordinates (layers,
+            # times; for the plain classes: a repeated hyperedge, mostly in a new node order)
+            first = specs[0]
+            for j, sp in enumerate(specs[1:], start=1):
+                sp.update(mode=first["mode"], ns=list(first["ns"]), pick=first["pick"],
+                          cut=first["cut"], layer=first["layer"] + j, perm=first["perm"] + j)
+                if isinstance(first["t"], int) and not isinstance(first["t"], bool):
+                    sp["t"] = first["t"] + j
+            op["same_node_set_batch"] = True
+        op.update(edges=specs, ws=draw(ws),
                   short_weights=draw(st.integers(0, 9)) == 9,
                   metas=draw(st.one_of(st.none(), st.lists(S.metadata(), max_size=4))))
     elif k == "remove_edge":
@@ -866,6 +905,10 @@ def op_strategy(draw, weighted, kinds, t_strategy=None, clear=True):
         op.update(edge=draw(e_exist), field=draw(field), fpick=draw(sel))
     elif k == "set_attr_hg":
         op.update(field=draw(field), value=draw(S.json_values))
+    elif k == "set_layer_meta":
+        op.update(layer=draw(st.integers(0, 3)), meta=draw(S.metadata()))
+    elif k == "set_dataset_meta":
+        op.update(meta=draw(S.metadata()))
     elif k == "set_hg_metadata":
         op.update(meta=draw(S.metadata()))
     elif k == "clear":
